@@ -17,10 +17,12 @@ package c03
 import (
 	"encoding/json"
 	"fmt"
+	"sort"
 	"strings"
 
 	"verif/internal/bytemc"
 	"verif/internal/core"
+	"verif/internal/gens"
 	"verif/internal/mach"
 	"verif/internal/ref/jsonref"
 )
@@ -50,9 +52,9 @@ func init() {
 			"snapshot masks scratch fields (stale tmp, runeBytes, mi) that fast paths legitimately leave different", "error text and position are not compared here (C09)"},
 		Bound: func(tier string) string {
 			if tier == "thorough" {
-				return "leg A: chunks of length 2 from every state of nesting D<=3 (strict) / 1 (SEN), chunks of length 3 from the strict states of nesting <=1; leg B: D=3 single, D=2 multi; leg C: 2-splits at every offset + 4096 straddle; leg D: SEN texts <=4 symbols"
+				return "leg A: chunks of length 2 from every state of nesting D<=3 (strict) / 1 (SEN), chunks of length 3 from the strict states of nesting <=1; leg B: D=3 single, D=2 multi; leg C: 2-splits at every offset + 4096 straddle, scale family (counts 7..65, strings to 257 bytes; reads of 1/3/16/64 bytes, splits, refill); leg D: SEN texts <=4 symbols"
 			}
-			return "leg A: nesting D=2 (strict) / 0 (SEN), chunks of length 2; leg B: D=2 single, D=2 multi; leg C: 2-splits at every offset + 4096 straddle; leg D: SEN texts <=3 symbols"
+			return "leg A: nesting D=2 (strict) / 0 (SEN), chunks of length 2; leg B: D=2 single, D=2 multi; leg C: 2-splits at every offset + 4096 straddle, scale family (counts 7..65, strings to 257 bytes; reads of 1/3/16/64 bytes, splits, refill); leg D: SEN texts <=3 symbols"
 		},
 	})
 }
@@ -587,6 +589,7 @@ func legC(c *core.Ctx, sub int) {
 			}
 		}
 	}
+	legCScale(c, sub, machines)
 	// SEN-only syntax: sen.Parser and sen.Tokenizer, each against its own whole-buffer outcome
 	for si, st := range senTexts {
 		if si%nC != sub {
@@ -631,6 +634,128 @@ func legC(c *core.Ctx, sub int) {
 				padded := append([]byte(strings.Repeat(" ", 4096-k)), in...)
 				if len(padded) > 4096 {
 					check("refill-4096", [][]byte{padded[:4096], padded[4096:]})
+				}
+			}
+		}
+	}
+}
+
+// fixedChunks cuts data into chunks of k bytes.
+func fixedChunks(data []byte, k int) [][]byte {
+	var out [][]byte
+	for i := 0; i < len(data); i += k {
+		e := i + k
+		if e > len(data) {
+			e = len(data)
+		}
+		out = append(out, data[i:e])
+	}
+	return out
+}
+
+// scaleSplits: every offset of a short text, and the offsets next to every
+// power of two and to both ends of a long one.
+func scaleSplits(n int) []int {
+	if n <= 300 {
+		out := make([]int, 0, n)
+		for i := 1; i < n; i++ {
+			out = append(out, i)
+		}
+		return out
+	}
+	seen := map[int]bool{}
+	var out []int
+	add := func(i int) {
+		if i >= 1 && i < n && !seen[i] {
+			seen[i] = true
+			out = append(out, i)
+		}
+	}
+	for d := -2; d <= 2; d++ {
+		add(2 + d)
+		add(n - 2 + d)
+		for p := 8; p <= n; p *= 2 {
+			add(p + d)
+		}
+	}
+	sort.Ints(out)
+	return out
+}
+
+// legCScale: the scale family (gens.ScaleDocs: element / member / nesting
+// counts of 7..129, strings and member names of 7..4097 bytes) through all six
+// machines: the front-ends agree on the whole text, and every machine gives its
+// whole-buffer outcome under one-byte reads, reads of 3 / 16 / 64 bytes, a split
+// at the offsets of scaleSplits, the 4096-byte refill in the middle of and
+// right behind the text, and the reader's other lawful answers.
+func legCScale(c *core.Ctx, sub int, machines []*mach.M) {
+	for di, d := range gens.ScaleDocs(c.Quick()) {
+		if di%nC != sub {
+			continue
+		}
+		if c.Expired("C03 scale family") {
+			return
+		}
+		in := gens.ScaleJSON(d.Tree)
+		shape := "scale-" + d.Name[:strings.IndexByte(d.Name, ':')]
+		var baseWhole string
+		for mi, m := range machines {
+			whole := outcome(m, mach.Config{}, m.Whole(in, mach.Config{}))
+			c.Eval()
+			if mi == 0 {
+				baseWhole = whole
+				c.Nontrivial()
+			} else {
+				cmp := baseWhole
+				if m.Name == "oj.Validator" && cmp != "ERR" {
+					cmp = "OK"
+				}
+				if whole != cmp {
+					cs := caseT{Leg: "C", Machine: m.Name, Whole: true, Input: in, Quoted: d.Name, Other: "oj.Parser.whole"}
+					c.Fail(core.Sig("agree", "a=oj.Parser.whole", "b="+m.Name+".whole", "token="+shape, treeDiffKind(cmp, whole)), cs, len(in), cmp, whole)
+				}
+			}
+			checkEnv := func(class string, chunks [][]byte, cf mach.Config, want string) string {
+				o := m.Feed(chunks, cf, false, false)
+				c.Eval()
+				got := outcome(m, mach.Config{}, o)
+				if got != want {
+					cs := caseT{Leg: "C", Machine: m.Name, A: chunks, Input: in, Quoted: d.Name, EOFWithLast: cf.EOFWithLast, ZeroAt: cf.ZeroAt}
+					c.Fail(core.Sig("chunking", "fe="+m.Name, "token="+shape, "split="+class, treeDiffKind(want, got)), cs, len(in)+len(chunks), want, got)
+				}
+				return got
+			}
+			check := func(class string, chunks [][]byte) {
+				base := checkEnv(class, chunks, mach.Config{}, whole)
+				checkEnv(class+"+eof-with-last-chunk", chunks, mach.Config{EOFWithLast: true}, base)
+				checkEnv(class+"+empty-read", chunks, mach.Config{ZeroAt: len(chunks) + 1}, base)
+				if len(chunks) <= 2 {
+					checkEnv(class+"+empty-read", chunks, mach.Config{ZeroAt: 1}, base)
+				}
+			}
+			for si, spare := range [][]byte{mach.SpareFor([]byte("e]}")), nil} {
+				o := m.WholeSpare(in, spare, mach.Config{})
+				c.Eval()
+				if got := outcome(m, mach.Config{}, o); got != whole {
+					cs := caseT{Leg: "C", Machine: m.Name, Whole: true, Input: in, Quoted: d.Name, Spare: []string{string(spare), "-"}[si]}
+					c.Fail(core.Sig("spare-capacity", "fe="+m.Name, "token="+shape, []string{"continuation-stored-behind-the-input", "no-spare-capacity"}[si], treeDiffKind(whole, got)), cs, len(in), whole, got)
+				}
+			}
+			check("one-chunk", [][]byte{in})
+			check("bytewise", mach.Bytewise(in))
+			for _, k := range []int{3, 16, 64} {
+				check(fmt.Sprintf("reads-of-%d", k), fixedChunks(in, k))
+			}
+			for _, i := range scaleSplits(len(in)) {
+				checkEnv("2-split", [][]byte{in[:i], in[i:]}, mach.Config{}, whole)
+			}
+			for _, k := range []int{0, 1, len(in) / 2, len(in) - 1, len(in)} {
+				if k < 0 || k > len(in) {
+					continue
+				}
+				padded := append([]byte(strings.Repeat(" ", 4096-k)), in...)
+				if len(padded) > 4096 {
+					checkEnv("refill-4096", [][]byte{padded[:4096], padded[4096:]}, mach.Config{}, whole)
 				}
 			}
 		}
